@@ -192,6 +192,24 @@ def run(ctx):
                 raise Undecided("crash run failed: workload %d point %s: %s" % (wl["id"], n, pt["error"]))
             results.append((wl, pt))
     traces = [to_trace(pid, wl, pt) for wl, pt in results]
+    # regression scenario of fix 540bf10 (thorough tier: ~90 MiB of writes): a memtable larger than a WAL
+    # segment, crash with a sealed, unflushed memtable; the whole key set is projected onto one key "bulk"
+    if not quick and pid in ("C09", "C10"):
+        wc = ctx.build("walcollide")
+        d = ctx.mkdtemp("walcollide")
+        p1 = ctx.run([wc, "-dir", d, "-phase", "write", "-mem", str(80 << 20), "-n", "90000", "-crash"], timeout=1800)
+        p2 = ctx.run([wc, "-dir", d, "-phase", "check", "-mem", str(80 << 20), "-n", "90000"], timeout=1800, check=False)
+        m = re.search(r"missing=(\d+)", p2.stdout)
+        shutil.rmtree(d, ignore_errors=True)
+        if not m:
+            raise Undecided("walcollide check did not report: %s %s" % (p2.stdout[-300:], p2.stderr[-300:]))
+        val = "all" if m.group(1) == "0" else "missing:" + m.group(1)
+        bulk_wl = {"id": 9000, "cfg": {"sync": True, "memsize": 80 << 20}, "mode": "plain", "keys": ["bulk"], "ops": "90000 x Set(1 KiB) then crash with a sealed unflushed memtable"}
+        bulk_pt = {"n": "bulk", "crashed": True, "events": [{"e": "Accept", "w": [{"k": "bulk", "v": "all"}]}, {"e": "Ack", "ok": True}, {"e": "Crash", "at": "exit after wal.Sync"}],
+                   "rec": {"open": True, "dump1": {"bulk": val}}}
+        results.append((bulk_wl, bulk_pt))
+        traces.append(to_trace(pid, bulk_wl, bulk_pt))
+        ctx.log("bulk WAL scenario: %s" % val)
     rejected = ctx.validate_traces("RecoveryPropTrace", "RecoveryPropTrace.cfg", traces, timeout=1500)
     ctx.log("M3: %d crash traces validated, %d mismatches" % (len(traces), len(rejected)))
     known = {f["id"]: f for f in ctx.load_known()}
